@@ -60,6 +60,7 @@ func main() {
 	r.Assume("an evaluation is conclusive when the engine returns a number (compared exactly) or an error (accepted as out-of-range report)")
 
 	intColumns(r)
+	frontier(r)
 	intLiterals(r)
 	divMod(r)
 	decimals(r)
